@@ -34,7 +34,8 @@ from traits.trait_set_object import TraitSet  # noqa: E402
 
 EXN = ["NotifierNotFound"]
 FN = {0: "value", 1: "f", 2: "g", 3: "kids", 4: "m", 5: "s", 10: "trait_added", 11: "trait_modified",
-      12: "x1", 13: "x2"}      # 12, 13: dynamic Instance traits added with add_trait
+      12: "x1", 13: "x2",      # 12, 13: dynamic Instance traits added with add_trait
+      14: "groups"}            # a Dict(Str, List(Instance)): nested containers (dict object: pseudo-field 17)
 NF = {v: k for k, v in FN.items()}
 
 
@@ -53,6 +54,14 @@ class N(HasTraits):
     kids = List(Instance(HasTraits), tagc=True)
     m = Dict(Str, Instance(HasTraits))
     s = Set(Instance(HasTraits))
+    groups = Dict(Str, List(Instance(HasTraits)))
+
+
+class NFalsy(N):
+    """Container-style pool objects: falsy while their kids list is empty (or not there yet)."""
+
+    def __len__(self):
+        return len(self.__dict__.get("kids") or ())
 
 
 def build_expr(g):
@@ -73,6 +82,8 @@ def build_expr(g):
         e = X.match(match_fg, notify=bool(notify))
     elif f == "match_vk":
         e = X.match(match_vk, notify=bool(notify))
+    elif f == 17:
+        e = X.dict_items(notify=bool(notify), optional=bool(optional))
     elif f <= 5 or f >= 10:
         e = X.trait(FN[f], notify=bool(notify), optional=bool(optional))
     elif f == 6:
@@ -90,10 +101,12 @@ def build_expr(g):
 
 
 class World:
-    def __init__(self, npool):
-        self.pool = [N() for _ in range(npool)]
+    def __init__(self, npool, falsy=False):
+        self.pool = [(NFalsy if falsy else N)() for _ in range(npool)]
         self.atom = {id(o): i for i, o in enumerate(self.pool)}
         self.conts = {}          # cid -> container object (kept alive)
+        self.cfield = {}         # cid -> pseudo-field holding its items (6 list, 7 dict, 8 set, 17 dict of lists)
+        self.pending_field = None
         self.next = npool
         self.pending = None      # id reserved for the container the running operation creates
         self.calls = []
@@ -121,6 +134,7 @@ class World:
         self.pending = None
         self.atom[id(cont)] = cid
         self.conts[cid] = cont
+        self.cfield[cid] = self.pending_field
 
     def ids(self, vs, may_alloc=False):
         out = []
@@ -147,8 +161,10 @@ class World:
         if isinstance(ev, ListChangeEvent):
             return [key[0], key[1], self.oid(ev.object), 6, self.ids(ev.removed), self.ids(ev.added)]
         if isinstance(ev, DictChangeEvent):
-            return [key[0], key[1], self.oid(ev.object), 7, self.ids(ev.removed.values()),
-                    self.ids(ev.added.values())]
+            # the payload objects must be the objects removed from / now stored in the dict: a value that is
+            # not a known object (e.g. a raw list instead of the stored TraitList) is dropped here
+            return [key[0], key[1], self.oid(ev.object), self.cfield.get(self.oid(ev.object), 7),
+                    self.ids(ev.removed.values()), self.ids(ev.added.values(), may_alloc=True)]
         if isinstance(ev, SetChangeEvent):
             return [key[0], key[1], self.oid(ev.object), 8, sorted(self.ids(ev.removed)),
                     sorted(self.ids(ev.added))]
@@ -165,14 +181,14 @@ class World:
                 v = o.__dict__.get(FN[f])
                 if v is not None:
                     out["%d,%d" % (i, f)] = self.ids([v])
-            for f in (3, 4, 5):
+            for f in (3, 4, 5, 14):
                 v = o.__dict__.get(FN[f])
                 out["%d,%d" % (i, f)] = [] if v is None else self.ids([v])
-        for cid, c in self.conts.items():
+        for cid, c in list(self.conts.items()):
             if isinstance(c, TraitList):
                 out["%d,6" % cid] = self.ids(list(c))
             elif isinstance(c, TraitDict):
-                out["%d,7" % cid] = self.ids(list(c.values()))
+                out["%d,%d" % (cid, self.cfield[cid])] = self.ids(list(c.values()))
             else:
                 out["%d,8" % cid] = sorted(self.ids(list(c)))
         return out
@@ -199,7 +215,7 @@ class World:
                 if nm or users:
                     out["%d,%d" % (i, f)] = [nm, users]
         for cid, c in self.conts.items():
-            f = 6 if isinstance(c, TraitList) else 7 if isinstance(c, TraitDict) else 8
+            f = self.cfield[cid]
             nm, users = self.summarise(c._notifiers(True))
             if nm or users:
                 out["%d,%d" % (cid, f)] = [nm, users]
@@ -226,10 +242,13 @@ class World:
         elif k == "SetCont":
             o, f, items = op[1:4]
             self.pending = self.next
+            self.pending_field = f + 3
             self.next += 1
             try:
                 if f == 3:
                     val = [self.pool[a] for a in items]
+                elif f == 14:
+                    val = {}
                 elif f == 4:
                     val = {key: self.pool[a] for key, a in items}
                 else:
@@ -249,11 +268,25 @@ class World:
             if FN[f] in self.pool[o].__dict__:
                 return
             self.pending = self.next
+            self.pending_field = f + 3
             self.next += 1
             try:
                 getattr(self.pool[o], FN[f])
             finally:
                 cur = self.pool[o].__dict__.get(FN[f])
+                if self.pending is not None and cur is not None and id(cur) not in self.atom:
+                    self.register(cur)
+                self.pending = None
+        elif k == "CopNew":         # d[key] = [objects] on a dict of lists: the stored value is a new list object
+            c, f, meth, args = op[1:5]
+            cont = self.conts[c]
+            self.pending = self.next
+            self.pending_field = 6
+            self.next += 1
+            try:
+                cont[args[0]] = [self.pool[a] for a in args[1]]
+            finally:
+                cur = cont.get(args[0])
                 if self.pending is not None and cur is not None and id(cur) not in self.atom:
                     self.register(cur)
                 self.pending = None
@@ -291,7 +324,7 @@ class World:
                     cont.sort(key=lambda o: self.atom[id(o)])
                 else:
                     raise ValueError(meth)
-            elif f == 7:
+            elif f in (7, 17):
                 if meth == "setitem":
                     cont[args[0]] = self.pool[args[1]]
                 elif meth == "delitem":
@@ -334,7 +367,7 @@ class World:
 
 
 def run_case(case):
-    w = World(case["npool"])
+    w = World(case["npool"], bool(case.get("falsy")))
     hist = []
     prev_heap, prev_hooks = None, None
     for op in case["ops"]:
